@@ -102,7 +102,7 @@ class DefaultJSONEncoder(json.JSONEncoder):
                 return {
                     ReservedKeys.ERROR.value: {
                         "type": json_cls.__name__,
-                        "args": obj.args,
+                        "args": _preprocess_for_json(obj.args),
                         "message": str(obj),
                     }
                 }
@@ -110,7 +110,7 @@ class DefaultJSONEncoder(json.JSONEncoder):
                 ReservedKeys.CLIENT_EXCEPTION.value: {
                     "module": json_cls.__module__,
                     "qualname": json_cls.__qualname__,
-                    "args": obj.args,
+                    "args": _preprocess_for_json(obj.args),
                     "message": str(obj),
                 }
             }
@@ -169,7 +169,7 @@ def _reconstruct_from_json(data: Any) -> TJsonSerializable | Any:
     if isinstance(data, dict):
         if error_data := data.get(ReservedKeys.ERROR.value):
             error_type = error_data["type"]
-            error_args = error_data["args"]
+            error_args = _reconstruct_from_json(error_data["args"])
             if hasattr(builtins, error_type):
                 return getattr(builtins, error_type)(*error_args)
             # Fallback for legacy data serialized without module/qualname
@@ -181,7 +181,7 @@ def _reconstruct_from_json(data: Any) -> TJsonSerializable | Any:
                 exc_cls = _resolve_class(
                     client_exc_data["module"], client_exc_data["qualname"]
                 )
-                return exc_cls(*client_exc_data["args"])
+                return exc_cls(*_reconstruct_from_json(client_exc_data["args"]))
             except Exception:
                 return RuntimeError(
                     f"{client_exc_data['qualname']}: {client_exc_data['message']}"
